@@ -132,6 +132,9 @@ def account_run(res: Result, run, sc) -> None:
     from ladsim import truth
 
     res.feed_run(run)
+    if run.error is not None:
+        e = run.error
+        res.notes.append(f"{e.type}@{e.file}:{e.func} phase={e.phase}")
     res.model_steps += run.steps_done
     res.model_time_s += run.steps_done * truth.dt_s(sc)
     rec = run.rec
